@@ -42,6 +42,10 @@ Theorem C23_queue_size : forall l r, 1 <= l_max_q l -> 0 <= r ->
 Proof. exact q_bound. Qed.
 Print Assumptions C23_queue_size.
 
+Theorem C23_queue_size_floor : forall l r, 0 <= r -> 1 <= sanitize_queue_size l r.
+Proof. exact q_floor. Qed.
+Print Assumptions C23_queue_size_floor.
+
 (* all five on the observable output, for every valid configuration and request *)
 Theorem C23_oracle : forall c, valid c -> known c = 0 -> oracle c (run c) = true.
 Proof. exact oracle_holds. Qed.
